@@ -20,6 +20,17 @@ _LABEL: ContextVar[tuple] = ContextVar("hgsim_label", default=())
 _CALL: ContextVar[str] = ContextVar("hgsim_call", default="-")
 
 
+def _snapshot(v: Any) -> Any:
+    """Value copy of arguments for the history (node functions may mutate what they receive)."""
+    if isinstance(v, dict):
+        return {k: _snapshot(x) for k, x in v.items()}
+    if isinstance(v, list):
+        return [_snapshot(x) for x in v]
+    if isinstance(v, tuple):
+        return tuple(_snapshot(x) for x in v)
+    return v
+
+
 class InjectedFault(Exception):
     """The exception a node_raise fault throws; identity matters to the oracles."""
 
@@ -163,7 +174,7 @@ class Runtime:
         self._ginv[node] = g + 1
         call = _CALL.get()
         key = f"{lid}/{node}/{inv}"
-        rec = self.log("enter", n=node, r=lid, i=inv, gi=g, a=dict(args), c=call, key=key, nk=kind)
+        rec = self.log("enter", n=node, r=lid, i=inv, gi=g, a=_snapshot(args), c=call, key=key, nk=kind)
         rec["objs"] = dict(args)  # the very objects, for identity checks (never serialised)
         return rec
 
@@ -243,6 +254,12 @@ class Runtime:
             elif beh == "const":
                 cv = spec["beh_value"]
                 vals.append(list(cv) if isinstance(cv, list) else cv)
+            elif beh == "drain" and j == 0:
+                # consumes (mutates) its list argument in place and returns a value derived from what it held
+                p = spec["beh_param"]
+                vals.append(mix(tag, "drain", canon(args[p])))
+                if isinstance(args[p], list):
+                    args[p].clear()
             elif beh == "snapshot_nested" and j == 0:
                 # the default is a dict holding a mutable value: {"items": [], "count": 0}
                 p = spec["beh_param"]
